@@ -169,7 +169,15 @@ def rule_R20_2(ctx):
                    "the insert into the scope map is not dominated by the "
                    "`name absent` outcome of a lookup whose `present` "
                    "outcome returns an error", where=i.loc)
+    import anchors as _an
+    linked = bool(_an.scope_pushers(prog)) and not _an.pusher_appends(prog)
+    n_locks = sum(1 for c in fv.calls() if mir.mutex_locked_type(c))
     if last:
+        r.ok()
+    elif linked and not fv.natural_loops() and n_locks == 1:
+        # linked chain: the handle itself is the innermost node; declare locks
+        # exactly that one cell and walks nowhere
+        r.inst("%s: linked chain, locks the head node only" % f.path)
         r.ok()
     else:
         r.fail("%s | not-innermost-scope" % f.path,
